@@ -18,6 +18,7 @@ const (
 const (
 	IOFlagReadMmap     = 0x646f0000 | 0x8
 	IOFlagSkipPrefetch = 0x10
+	IOFlagReadOnly     = 0x2
 )
 
 // ---- accounting / fault injection ----
@@ -210,6 +211,10 @@ func (i *IndexImpl) ReconstructBatch(keys []int64, r []float32) ([]float32, erro
 		r = append(r, i.vecs[p*i.d:(p+1)*i.d]...)
 	}
 	return r, nil
+}
+
+func (i *IndexImpl) Reconstruct(key int64) ([]float32, error) {
+	return i.ReconstructBatch([]int64{key}, nil)
 }
 
 // Score is the exact score used by the engine (exported for the oracle).
